@@ -51,6 +51,19 @@ theorem C08_rev_aligned (D : Derive) :
     (spec.iter D.sem).reverse.zip (spec.names D.sem).reverse = D.sem.items.reverse := by
   simp [spec.iter, spec.names, EnumSem.discs, EnumSem.names, ← List.map_reverse, List.zip_map']
 
+/-- position by position: the `i`-th item of `names()` is `as_str` of the `i`-th item of `iter()` -/
+theorem C08_nth_aligned (D : Derive) (h : D.WF) (i : Nat) (v : Int) (hv : (spec.iter D.sem)[i]? = some v) :
+    (spec.names D.sem)[i]? = spec.asStr D.sem v := by
+  have hz := (C08_zip_aligned D h).1
+  have hlen := (C08_len D).2
+  have hi : i < (spec.iter D.sem).length := (List.getElem?_eq_some_iff.mp hv).1
+  have hi' : i < (spec.names D.sem).length := by omega
+  have hmem : (v, (spec.names D.sem)[i]) ∈ (spec.iter D.sem).zip (spec.names D.sem) := by
+    have hv' : (spec.iter D.sem)[i] = v := (List.getElem?_eq_some_iff.mp hv).2
+    rw [← hv', ← List.getElem_zip (i := i) (h := by simp [List.length_zip]; omega)]
+    exact List.getElem_mem _
+  rw [(C08_zip_aligned D h).2 _ hmem, List.getElem?_eq_getElem hi']
+
 /-- non-vacuity: names of a renamed enum, consumed from both ends -/
 example : IterState.run (fun _ => .ok none) (fun _ => .ok none) (namesInit exD1) [.nextBack, .next, .len]
     = .ok (.cursor [[98, 98], [67], [68], [69]], [.item (some [70]), .item (some [65]), .len 4]) := by decide
